@@ -673,3 +673,140 @@ package process
 //@ contract (*NewForm).typecheckForm
 //@   callsite[C09] C09.cutKeptMidCall process.Form.typecheckForm#2: keptNewType(Form(p))
 //@   callsite[C09] C09.cutKeptMid process.Form.typecheckForm#4: keptNewType(Form(p))
+
+// ---------------------------------------------------------------------------------------------
+// C07: the verdict and the declarative rules. Rule by rule (one step): if a term is accepted, the premises of its
+// typing rule hold - the subject's type (unfolded) has the head constructor of the rule, payload and continuation
+// types agree up to type equality (eqT, the verdict of EqualType), a selected label exists in the choice, a call
+// matches its signature - and the continuation(s) are checked in the context and against the provider type the
+// rule prescribes (call-site clauses). For the rules with a continuation the converse is proved too: if the
+// premises of the rule hold, the verdict is the continuation's verdict (a well-typed step is never rejected
+// locally); tcLast is the verdict of the most recent typecheckForm call.
+//@ ghost tcLast *TypeError
+//@ macro unf(t types.SessionType, env types.LabelledTypesEnv) types.SessionType = unfolded(t, dom(env), vals(env))
+//@ macro eq(a types.SessionType, b types.SessionType, env types.LabelledTypesEnv) bool = eqT(a, b, dom(env), vals(env))
+//@ macro noPol(n Name) bool = n.ExplicitPolarity == nil
+
+//@ contract interface Form.typecheckForm(self, gamma, sh, providerType, env, sigma, globalEnv)
+//@   requires[C07] uninit(self) && formOK(self) && gamma != nil && globalEnv != nil
+//@   emits tcLast = result
+
+// send w<u, v>
+//@ macro stepSend(p *SendForm, g NamesTypesCtx, sh *Name, A types.SessionType, env types.LabelledTypesEnv) bool =
+//@    ite(isProv(p.to_c.Ident, p.to_c.IsSelf, sh),
+//@        is(unf(A, env), types.SendType) && has(g, p.payload_c.Ident) && has(g, p.continuation_c.Ident) &&
+//@           eq(types.SendType(unf(A, env)).Left, unf(g[p.payload_c.Ident].Type, env), env) && eq(types.SendType(unf(A, env)).Right, unf(g[p.continuation_c.Ident].Type, env), env),
+//@    ite(isProv(p.continuation_c.Ident, p.continuation_c.IsSelf, sh),
+//@        has(g, p.to_c.Ident) && is(unf(g[p.to_c.Ident].Type, env), types.ReceiveType) && has(g, p.payload_c.Ident) &&
+//@           eq(unf(types.ReceiveType(unf(g[p.to_c.Ident].Type, env)).Left, env), unf(g[p.payload_c.Ident].Type, env), env) &&
+//@           eq(unf(types.ReceiveType(unf(g[p.to_c.Ident].Type, env)).Right, env), unf(A, env), env),
+//@        false))
+//@ contract (*SendForm).typecheckForm
+//@   ensures[C07] C07.send: result == nil ==> old(stepSend(p, gammaNameTypesCtx, providerShadowName, providerType, labelledTypesEnv))
+
+// <x, y> <- recv w; P
+//@ macro stepRecv(p *ReceiveForm, g NamesTypesCtx, sh *Name, A types.SessionType, env types.LabelledTypesEnv) bool =
+//@    ite(isProv(p.from_c.Ident, p.from_c.IsSelf, sh), is(unf(A, env), types.ReceiveType),
+//@    ite(isProv(p.payload_c.Ident, p.payload_c.IsSelf, sh) || isProv(p.continuation_c.Ident, p.continuation_c.IsSelf, sh), false,
+//@        has(g, p.from_c.Ident) && is(unf(g[p.from_c.Ident].Type, env), types.SendType)))
+//@ macro premRecv(p *ReceiveForm, g NamesTypesCtx, sh *Name, A types.SessionType, env types.LabelledTypesEnv) bool =
+//@    noPol(p.from_c) && noPol(p.payload_c) && noPol(p.continuation_c) && p.payload_c.Ident != p.continuation_c.Ident &&
+//@    ite(isProv(p.from_c.Ident, p.from_c.IsSelf, sh),
+//@        is(unf(A, env), types.ReceiveType) && !has(g, p.payload_c.Ident) && !has(g, p.continuation_c.Ident),
+//@        !isProv(p.payload_c.Ident, p.payload_c.IsSelf, sh) && !isProv(p.continuation_c.Ident, p.continuation_c.IsSelf, sh) &&
+//@        has(g, p.from_c.Ident) && is(unf(g[p.from_c.Ident].Type, env), types.SendType) &&
+//@        (p.payload_c.Ident == p.from_c.Ident || !has(g, p.payload_c.Ident)) && (p.continuation_c.Ident == p.from_c.Ident || !has(g, p.continuation_c.Ident)))
+//@ contract (*ReceiveForm).typecheckForm
+//@   ensures[C07] C07.recv: result == nil ==> old(stepRecv(p, gammaNameTypesCtx, providerShadowName, providerType, labelledTypesEnv))
+//@   ensures[C07] C07.recvComplete: old(premRecv(p, gammaNameTypesCtx, providerShadowName, providerType, labelledTypesEnv)) ==> result == tcLast
+//@   callsite[C07] C07.recvContR process.Form.typecheckForm#1: arg2 == addr(p, ReceiveForm, continuation_c) && arg3 == unf(types.ReceiveType(unf(providerType, labelledTypesEnv)).Right, labelledTypesEnv) &&
+//@        gammaNameTypesCtx[p.payload_c.Ident].Type == unf(types.ReceiveType(unf(providerType, labelledTypesEnv)).Left, labelledTypesEnv)
+//@   callsite[C07] C07.recvContL process.Form.typecheckForm#2: arg2 == providerShadowName && arg3 == providerType &&
+//@        gammaNameTypesCtx[p.payload_c.Ident].Type == unf(types.SendType(unf(old(gammaNameTypesCtx[p.from_c.Ident].Type), labelledTypesEnv)).Left, labelledTypesEnv) &&
+//@        gammaNameTypesCtx[p.continuation_c.Ident].Type == unf(types.SendType(unf(old(gammaNameTypesCtx[p.from_c.Ident].Type), labelledTypesEnv)).Right, labelledTypesEnv)
+
+// close w / wait w; P
+//@ contract (*CloseForm).typecheckForm
+//@   ensures[C07] C07.close: result == nil ==> isProv(p.from_c.Ident, p.from_c.IsSelf, providerShadowName) && is(unf(providerType, labelledTypesEnv), types.UnitType)
+//@ macro stepWait(p *WaitForm, g NamesTypesCtx, sh *Name, env types.LabelledTypesEnv) bool =
+//@    !isProv(p.to_c.Ident, p.to_c.IsSelf, sh) && has(g, p.to_c.Ident) && is(unf(g[p.to_c.Ident].Type, env), types.UnitType)
+//@ contract (*WaitForm).typecheckForm
+//@   ensures[C07] C07.wait: result == nil ==> old(stepWait(p, gammaNameTypesCtx, providerShadowName, labelledTypesEnv))
+//@   ensures[C07] C07.waitComplete: old(stepWait(p, gammaNameTypesCtx, providerShadowName, labelledTypesEnv)) && noPol(p.to_c) ==> result == tcLast
+//@   callsite[C07] C07.waitCont process.Form.typecheckForm#1: arg2 == providerShadowName && arg3 == providerType && arg1 == gammaNameTypesCtx
+// a name without an explicit polarity annotation passes the polarity check
+//@ contract (*Name).ExplicitPolarityValid
+//@   ensures C07.polarityNone: n.ExplicitPolarity == nil ==> result
+//@ contract checkExplicitPolarityValidity
+//@   ensures C07.polarityAllNone: (forall k int :: 0 <= k && k < len(names) ==> names[k].ExplicitPolarity == nil) ==> result == nil
+//@   loop 1 invariant true
+
+// w.l<v>
+//@ macro firstAt(bs []types.Option, l string, k int) bool = 0 <= k && k < len(bs) && bs[k].Label == l && (forall j int :: 0 <= j && j < k ==> bs[j].Label != l)
+//@ macro stepSelect(p *SelectForm, g NamesTypesCtx, sh *Name, A types.SessionType, env types.LabelledTypesEnv) bool =
+//@    ite(isProv(p.to_c.Ident, p.to_c.IsSelf, sh),
+//@        is(unf(A, env), types.SelectLabelType) && has(g, p.continuation_c.Ident) &&
+//@           (exists k int :: firstAt(types.SelectLabelType(unf(A, env)).Branches, p.label.L, k) && eq(types.SelectLabelType(unf(A, env)).Branches[k].SessionType, g[p.continuation_c.Ident].Type, env)),
+//@    ite(isProv(p.continuation_c.Ident, p.continuation_c.IsSelf, sh),
+//@        has(g, p.to_c.Ident) && is(unf(g[p.to_c.Ident].Type, env), types.BranchCaseType) &&
+//@           (exists k int :: firstAt(types.BranchCaseType(unf(g[p.to_c.Ident].Type, env)).Branches, p.label.L, k) && eq(types.BranchCaseType(unf(g[p.to_c.Ident].Type, env)).Branches[k].SessionType, A, env)),
+//@        false))
+//@ contract (*SelectForm).typecheckForm
+//@   ensures[C07] C07.select: result == nil ==> old(stepSelect(p, gammaNameTypesCtx, providerShadowName, providerType, labelledTypesEnv))
+
+// fwd w x
+//@ contract (*ForwardForm).typecheckForm
+//@   ensures[C07] C07.fwd: result == nil ==> isProv(p.to_c.Ident, p.to_c.IsSelf, providerShadowName) && !isProv(p.from_c.Ident, p.from_c.IsSelf, providerShadowName) &&
+//@        old(has(gammaNameTypesCtx, p.from_c.Ident)) && old(eq(providerType, unf(gammaNameTypesCtx[p.from_c.Ident].Type, labelledTypesEnv), labelledTypesEnv))
+
+// drop x; P and <a, b> <- split x; P
+//@ macro stepDrop(p *DropForm, g NamesTypesCtx, sh *Name) bool = !isProv(p.client_c.Ident, p.client_c.IsSelf, sh) && has(g, p.client_c.Ident) && g[p.client_c.Ident].Type != nil && allowsW(modeOf(g[p.client_c.Ident].Type))
+//@ contract (*DropForm).typecheckForm
+//@   ensures[C07] C07.drop: result == nil ==> old(stepDrop(p, gammaNameTypesCtx, providerShadowName))
+//@   ensures[C07] C07.dropComplete: old(stepDrop(p, gammaNameTypesCtx, providerShadowName)) && noPol(p.client_c) ==> result == tcLast
+//@   callsite[C07] C07.dropCont process.Form.typecheckForm#1: arg2 == providerShadowName && arg3 == providerType && arg1 == gammaNameTypesCtx
+//@ macro stepSplit(p *SplitForm, g NamesTypesCtx, sh *Name, env types.LabelledTypesEnv) bool =
+//@    !isProv(p.from_c.Ident, p.from_c.IsSelf, sh) && has(g, p.from_c.Ident) && unf(g[p.from_c.Ident].Type, env) != nil && allowsC(modeOf(unf(g[p.from_c.Ident].Type, env)))
+//@ macro premSplit(p *SplitForm, g NamesTypesCtx, sh *Name, env types.LabelledTypesEnv) bool = stepSplit(p, g, sh, env) &&
+//@    noPol(p.from_c) && noPol(p.channel_one) && noPol(p.channel_two) && p.channel_one.Ident != p.channel_two.Ident &&
+//@    (p.channel_one.Ident == p.from_c.Ident || !has(g, p.channel_one.Ident)) && (p.channel_two.Ident == p.from_c.Ident || !has(g, p.channel_two.Ident))
+//@ contract (*SplitForm).typecheckForm
+//@   ensures[C07] C07.split: result == nil ==> old(stepSplit(p, gammaNameTypesCtx, providerShadowName, labelledTypesEnv))
+//@   ensures[C07] C07.splitComplete: old(premSplit(p, gammaNameTypesCtx, providerShadowName, labelledTypesEnv)) ==> result == tcLast
+//@   callsite[C07] C07.splitCont process.Form.typecheckForm#1: arg2 == providerShadowName && arg3 == providerType &&
+//@        gammaNameTypesCtx[p.channel_one.Ident].Type == unf(old(gammaNameTypesCtx[p.from_c.Ident].Type), labelledTypesEnv) && gammaNameTypesCtx[p.channel_two.Ident].Type == unf(old(gammaNameTypesCtx[p.from_c.Ident].Type), labelledTypesEnv)
+
+// print l; P
+//@ contract (*PrintForm).typecheckForm
+//@   ensures[C07] C07.print: result == tcLast
+//@   callsite[C07] C07.printCont process.Form.typecheckForm#1: arg2 == providerShadowName && arg3 == providerType && arg1 == gammaNameTypesCtx
+
+// cast w<v> and y <- shift w; P
+//@ macro stepCast(p *CastForm, g NamesTypesCtx, sh *Name, A types.SessionType, env types.LabelledTypesEnv) bool =
+//@    ite(isProv(p.to_c.Ident, p.to_c.IsSelf, sh),
+//@        is(unf(A, env), types.DownType) && ge(types.DownType(unf(A, env)).From, types.DownType(unf(A, env)).To) && has(g, p.continuation_c.Ident) &&
+//@           tag(types.DownType(unf(A, env)).From) == tag(modeOf(unf(g[p.continuation_c.Ident].Type, env))) &&
+//@           eq(unf(types.DownType(unf(A, env)).Continuation, env), unf(g[p.continuation_c.Ident].Type, env), env),
+//@    ite(isProv(p.continuation_c.Ident, p.continuation_c.IsSelf, sh),
+//@        has(g, p.to_c.Ident) && is(unf(g[p.to_c.Ident].Type, env), types.UpType) &&
+//@           ge(types.UpType(unf(g[p.to_c.Ident].Type, env)).To, types.UpType(unf(g[p.to_c.Ident].Type, env)).From) &&
+//@           tag(types.UpType(unf(g[p.to_c.Ident].Type, env)).From) == tag(modeOf(unf(A, env))) &&
+//@           eq(unf(types.UpType(unf(g[p.to_c.Ident].Type, env)).Continuation, env), unf(A, env), env),
+//@        false))
+//@ contract (*CastForm).typecheckForm
+//@   ensures[C07] C07.cast: result == nil ==> old(stepCast(p, gammaNameTypesCtx, providerShadowName, providerType, labelledTypesEnv))
+//@ macro stepShift(p *ShiftForm, g NamesTypesCtx, sh *Name, A types.SessionType, env types.LabelledTypesEnv) bool =
+//@    ite(isProv(p.from_c.Ident, p.from_c.IsSelf, sh),
+//@        is(unf(A, env), types.UpType) && ge(types.UpType(unf(A, env)).To, types.UpType(unf(A, env)).From),
+//@    ite(isProv(p.continuation_c.Ident, p.continuation_c.IsSelf, sh), false,
+//@        has(g, p.from_c.Ident) && is(unf(g[p.from_c.Ident].Type, env), types.DownType) &&
+//@           ge(types.DownType(unf(g[p.from_c.Ident].Type, env)).From, types.DownType(unf(g[p.from_c.Ident].Type, env)).To)))
+//@ macro premShift(p *ShiftForm, g NamesTypesCtx, sh *Name, A types.SessionType, env types.LabelledTypesEnv) bool = stepShift(p, g, sh, A, env) &&
+//@    noPol(p.from_c) && noPol(p.continuation_c) &&
+//@    ite(isProv(p.from_c.Ident, p.from_c.IsSelf, sh), !has(g, p.continuation_c.Ident), p.continuation_c.Ident == p.from_c.Ident || !has(g, p.continuation_c.Ident))
+//@ contract (*ShiftForm).typecheckForm
+//@   ensures[C07] C07.shift: result == nil ==> old(stepShift(p, gammaNameTypesCtx, providerShadowName, providerType, labelledTypesEnv))
+//@   ensures[C07] C07.shiftComplete: old(premShift(p, gammaNameTypesCtx, providerShadowName, providerType, labelledTypesEnv)) ==> result == tcLast
+//@   callsite[C07] C07.shiftContR process.Form.typecheckForm#1: arg2 == addr(p, ShiftForm, continuation_c) && arg3 == unf(types.UpType(unf(providerType, labelledTypesEnv)).Continuation, labelledTypesEnv) && arg1 == gammaNameTypesCtx
+//@   callsite[C07] C07.shiftContL process.Form.typecheckForm#2: arg2 == providerShadowName && arg3 == providerType &&
+//@        gammaNameTypesCtx[p.continuation_c.Ident].Type == unf(types.DownType(unf(old(gammaNameTypesCtx[p.from_c.Ident].Type), labelledTypesEnv)).Continuation, labelledTypesEnv)
